@@ -210,6 +210,66 @@ fn run_helper(check: &Check) {
     });
 }
 
+/// Objects built directly from an offset table (vx-ref) and fragments, with 1..3 fragments per
+/// frame: the path of frame_pixel_data that gathers fragments by offsets.
+fn run_manual(check: &Check) {
+    let sizes = [1usize, 2, 4];
+    let mut per_frame: Vec<Vec<usize>> = vec![];
+    for n in 1..=3usize {
+        for mut code in 0..sizes.len().pow(n as u32) {
+            let mut v = vec![];
+            for _ in 0..n {
+                v.push(sizes[code % 3]);
+                code /= 3;
+            }
+            per_frame.push(v);
+        }
+    }
+    let max_frames = check.pick(2, 3);
+    let mut lists: Vec<Vec<usize>> = vec![];
+    for n in 1..=max_frames {
+        for mut code in 0..per_frame.len().pow(n as u32) {
+            let mut v = vec![];
+            for _ in 0..n {
+                v.push(code % per_frame.len());
+                code /= per_frame.len();
+            }
+            lists.push(v);
+        }
+    }
+    check.extra("manual_objects", json!(lists.len()));
+    check.par_range(lists.len() as u64, |l, i| {
+        let case_id = format!("manual/{i}");
+        if !l.want(&case_id) {
+            return;
+        }
+        l.eval();
+        l.nontrivial(&case_id);
+        let shape: Vec<&Vec<usize>> = lists[i as usize].iter().map(|&k| &per_frame[k]).collect();
+        let mut frags: Vec<Vec<u8>> = vec![];
+        for (fi, f) in shape.iter().enumerate() {
+            for (gi, &len) in f.iter().enumerate() {
+                frags.push((0..len).map(|k| (fi * 64 + gi * 16 + k + 1) as u8).collect());
+            }
+        }
+        let written_lens: Vec<usize> = frags.iter().map(|f| f.len() + f.len() % 2).collect();
+        let counts: Vec<usize> = shape.iter().map(|f| f.len()).collect();
+        let table = offset_table(&written_lens, &counts);
+        let obj = helper_object(DValue::PixelSequence(PixelFragmentSequence::new(table, frags.clone())), shape.len());
+        let multi = counts.iter().any(|&c| c > 1);
+        let class = json!({"part": "manual", "frames": shape.len(), "multiframe": shape.len() > 1, "multi_fragment": multi,
+            "odd_fragment": frags.iter().any(|f| f.len() % 2 == 1)});
+        // frame content is checked through frame_pixel_data against the in-memory fragments
+        match check_encapsulated(&obj, None, shape.len(), !multi) {
+            Ok(o) => l.outcome_with(&format!("manual-{o}"), || json!({"case": case_id, "fragments_per_frame": shape})),
+            Err((aspect, msg)) => {
+                l.outcome(&format!("violation-{aspect}"));
+                l.fail(&case_id, merge(&class, json!({"aspect": aspect})), json!({"fragments_per_frame": shape, "message": msg}));
+            }
+        }
+    });
+}
+
 fn run_transcode(check: &Check) {
     let imgs = images(check.pick(4, 6), true);
     let targets = encoder_targets();
@@ -266,9 +326,10 @@ fn run_transcode(check: &Check) {
 
 fn main() {
     let check = Check::from_args("C18", Level::Exploration);
-    check.set_rule("helper part: every list of 1..4 frames with sizes from {1,2,3,4,7,8} x fragment size {0,1,2,3,4,8} through Fragments::new + From<Vec<Fragments>>, encapsulate (fragment size 0) and encapsulate_single_frame (one frame), plus one frame of 2^24+1 bytes; transcoding part: the C19 image universe x origin {API, vx-ref file} x 3 native source syntaxes x every registry entry with a pixel data encoder; each result is put in an object, written, parsed by the strict vx-ref parser and compared with the in-memory value; a case is distinct by its id; non-trivial = an encapsulated value was produced");
+    check.set_rule("helper part: every list of 1..4 frames with sizes from {1,2,3,4,7,8} x fragment size {0,1,2,3,4,8} through Fragments::new + From<Vec<Fragments>>, encapsulate (fragment size 0) and encapsulate_single_frame (one frame), plus one frame of 2^24+1 bytes; manual part: objects of 1..2 (thorough: 3) frames with 1..3 fragments each of 1|2|4 bytes and the offset table computed by vx-ref (frame_pixel_data gathering fragments by offsets); transcoding part: the C19 image universe x origin {API, vx-ref file} x 3 native source syntaxes x every registry entry with a pixel data encoder; each result is put in an object, written, parsed by the strict vx-ref parser and compared with the in-memory value; a case is distinct by its id; non-trivial = an encapsulated value was produced");
     check.assume("vx-ref strict parser and offset computation (PS3.5 A.4) are the trusted base; several frames with several fragments each is a documented panic of the helper and is not counted as a violation; Encapsulated Pixel Data Value Total Length may count padded or unpadded fragment lengths");
     run_helper(&check);
+    run_manual(&check);
     run_transcode(&check);
     check.finish();
 }
